@@ -187,10 +187,56 @@ def run(ctx):
                 ctx.disagreement('corr.c17.key', {'only_impl': [k[:80] for k in sorted(impl_keys - model_keys)][:3],
                                                   'only_model': [k[:80] for k in sorted(model_keys - impl_keys)][:3]})
         ctx.count('cache_dirs_with_key_check', len(by_dir))
+        encoding_histories(ctx, base)
         if not ctx.quick():
             fault_injection(ctx, base)
     finally:
         shutil.rmtree(base, ignore_errors=True)
+
+
+def encoding_histories(ctx, base):
+    """the `encoding` option is part of what a call means: the same file bytes read under another encoding are another
+    specification (character string DEFAULT values, value assignments).  Histories over one cache directory that change only
+    the encoding, each call compared with the uncached compile of the same call."""
+    import asn1tools
+    rng = ctx.rng
+    texts = ['M DEFINITIONS AUTOMATIC TAGS ::= BEGIN A ::= SEQUENCE { s UTF8String DEFAULT "caf\u00e9 \u00fc\u00df", n INTEGER DEFAULT 1 } END\n',
+             'M DEFINITIONS AUTOMATIC TAGS ::= BEGIN greeting UTF8String ::= "gr\u00fc\u00df" A ::= SEQUENCE { s UTF8String DEFAULT greeting, b BOOLEAN OPTIONAL } END\n',
+             'M DEFINITIONS AUTOMATIC TAGS ::= BEGIN A ::= SEQUENCE { s UTF8String DEFAULT "plain ascii", n INTEGER DEFAULT 1 } END\n']
+    encs = ['utf-8', 'latin-1', 'cp1252', 'utf-8', 'iso8859-15']
+    for h in range(ctx.n(6, 40)):
+        text = texts[h % len(texts)]
+        pth = os.path.join(base, 'enc%d.asn' % h)
+        with open(pth, 'w', encoding='utf-8') as f:
+            f.write(text)
+        cache_dir = os.path.join(base, 'enc_cache%d' % h)
+        hist = []
+        for ci in range(rng.randint(2, 5)):
+            enc = rng.choice(encs) if ci else rng.choice(['latin-1', 'utf-8', 'cp1252'])
+            codec = rng.choice(['ber', 'uper', 'jer', 'oer'])
+            hist.append((codec, enc))
+            ctx.case(('encoding-history', h, tuple(hist)))
+            ctx.count('call.encoding=%s' % enc)
+
+            def compile_(cache):
+                try:
+                    return ('ok', asn1tools.compile_files([pth], codec, cache_dir=cache, encoding=enc))
+                except Exception as e:
+                    return ('err', impl.classify(e))
+            cached, fresh = compile_(cache_dir), compile_(None)
+            outs = []
+            for r in (cached, fresh):
+                if r[0] != 'ok':
+                    outs.append(r[:2])
+                    continue
+                e = impl.encode(r[1], 'A', {})
+                d = impl.decode(r[1], 'A', e[1]) if e[0] == 'ok' else e
+                e2 = impl.encode(r[1], 'A', {'s': 'caf\u00c3\u00a9 \u00c3\u00bc\u00c3\u009f', 'n': 2})
+                outs.append((e[:2], repr(d[1]) if d[0] == 'ok' else d[:2], e2[:2]))
+            if outs[0] != outs[1]:
+                ctx.violation('a cached compile differs from an uncached compile of the same call after the same files were compiled with another encoding',
+                              {'file_text': text, 'history': ['compile_files([f], %r, cache_dir=D, encoding=%r)' % ce for ce in hist], 'cached': repr(outs[0])[:500], 'uncached': repr(outs[1])[:500]})
+                break
 
 
 CHILD = r'''
